@@ -184,8 +184,10 @@ def dump_arms(ctx, binp):
                  timeout=3000, name='gen_tree_programs')
     ctx.tlc_expect_ok(tg, 'DecodeTree GEN')
     progs = tg.printed
-    if not th and len(progs) > 1000:
-        progs = random.Random(ctx.seed).sample(progs, 1000)
+    ctx.cov['tlc_tree_programs_emitted'] = len(progs)
+    cap = 20000 if th else 1000       # every program is dumped twice (whole tree, one inner value); a seeded sample of the emitted family
+    if len(progs) > cap:
+        progs = random.Random(ctx.seed).sample(progs, cap)
     pp = os.path.join(ctx.build, 'tree_progs.ndjson')
     vlib.write_ndjson(pp, progs)
     ep = os.path.join(ctx.build, 'ev_progs.ndjson')
